@@ -17,7 +17,9 @@ import copy
 import datetime as dt
 import json
 import os
+import resource
 import shutil
+import signal
 import sys
 import tempfile
 import warnings
@@ -588,19 +590,59 @@ def first_diff(a, b, path=""):
     return "%s: %r -> %r" % (path, a, b)
 
 
+OP_LIMIT = float(os.environ.get("C13_OP_LIMIT", "5"))
+
+
+class OpTimeout(BaseException):
+    """not an Exception: the library's own `except Exception` must not swallow it"""
+
+
+def _alarm(signum, frame):
+    raise OpTimeout()
+
+
+def count_nodes(x, cap=20000):
+    """cheap size of a caller value (number of container members, capped)"""
+    n, stack = 0, [x]
+    while stack and n < cap:
+        y = stack.pop()
+        n += 1
+        if isinstance(y, dict):
+            stack.extend(list(y.values())[:cap])
+        elif isinstance(y, (list, tuple)):
+            stack.extend(y[:cap])
+        elif isinstance(y, _STIXBase):
+            stack.append(y._inner)
+    return n
+
+
 def run_case(case):
     env = []
     obs = []
-    for op in case["ops"]:
+    for k, op in enumerate(case["ops"]):
         names, keep = names_before(env)
         before = [json.dumps(snap(e), sort_keys=True, default=str) for e in env]
         before_raw = [snap(e) for e in env] if case.get("explain") else None
+        sizes = [count_nodes(e) for e in env]
         exc = None
         result = None
         extra = {}
         exempt = ()
         try:
-            result, extra, exempt = run_op(op, env, extra)
+            signal.setitimer(signal.ITIMER_REAL, OP_LIMIT)
+            try:
+                result, extra, exempt = run_op(op, env, extra)
+            finally:
+                signal.setitimer(signal.ITIMER_REAL, 0)
+        except OpTimeout:
+            # the call did not return: report which earlier values grew (cheap comparison, the
+            # full snapshot may be enormous) and give up on the rest of the case
+            mut = [{"env": i, "where": "size %d -> %d%s" % (a, count_nodes(e), "+" if count_nodes(e) >= 20000 else "")}
+                   for i, (a, e) in enumerate(zip(sizes, env)) if count_nodes(e) != a]
+            obs.append({"exc": "DidNotReturn", "mut": mut, "shared": [], "rkind": "exc", "timeout": True})
+            for _ in case["ops"][k + 1:]:
+                obs.append({"exc": "Skipped", "mut": [], "shared": [], "rkind": "exc"})
+            return {"ops": obs}
         except Exception as e:  # noqa: BLE001
             exc = type(e).__name__
             extra["msg"] = str(e)[:160]
@@ -635,6 +677,12 @@ def main():
         except WorldError as e:
             print(json.dumps({"world_error": str(e)}))
         return
+    signal.signal(signal.SIGALRM, _alarm)
+    try:
+        lim = 6 * 1024 ** 3
+        resource.setrlimit(resource.RLIMIT_AS, (lim, lim))
+    except (ValueError, OSError):
+        pass
     try:
         for line in sys.stdin:
             line = line.strip()
